@@ -454,6 +454,22 @@ fn traffic(rng: &mut Rng, sw: &Swarm, primary: Opts, obs: &mut Obs) -> Vec<Vec<u
     let mut out = Vec::new();
     let n = rng.urange(4, 10);
     for _ in 0..n {
+        if rng.chance(1, 400) {
+            let dl = *rng.pick(&[65_530usize, 65_536, 65_541, 70_000]);
+            let has_o = rng.bool();
+            let m = SpecMessage::Data {
+                prio: rng.bool(),
+                length: None,
+                tunnel_id: rng.u16(),
+                session_id: rng.u16(),
+                ns_nr: if rng.bool() { Some((rng.u16(), rng.u16())) } else { None },
+                offset: if has_o { Some(*rng.pick(&[0u16, 3, 300, 65_535])) } else { None },
+                data: rng.bytes(dl),
+            };
+            obs.count("probe:input-beyond-64k");
+            out.push(spec_encode(&m));
+            continue;
+        }
         let mut b = match rng.below(12) {
             0..=4 => {
                 let lim = *rng.pick(&[64usize, 200, 800, 2500]);
